@@ -60,6 +60,11 @@ func yield(kind string) {
 	}
 }
 
+// OnRelease, when set, is called after a task released a shimmed lock exclusively held
+// (Mutex.Unlock, RWMutex.Unlock), still inside that task's turn: the harness can read the
+// state the critical section left behind before any other task runs.
+var OnRelease func(obj any)
+
 // Mutex is sync.Mutex with a scheduling point before acquisition.
 type Mutex struct{ mu sync.Mutex }
 
@@ -91,6 +96,9 @@ func (m *Mutex) Unlock() {
 	m.mu.Unlock()
 	if s := active.Load(); s != nil && s.inTask() {
 		s.released(m)
+		if OnRelease != nil {
+			OnRelease(m)
+		}
 	}
 }
 
@@ -114,6 +122,9 @@ func (m *RWMutex) Unlock() {
 	m.mu.Unlock()
 	if s := active.Load(); s != nil && s.inTask() {
 		s.released(m)
+		if OnRelease != nil {
+			OnRelease(m)
+		}
 	}
 }
 
